@@ -119,20 +119,24 @@ theorem frame_roundtrip {α} (C : Codec α) (hC : CodecLaws C) (code : Nat) (inf
     simp only [hcode, ↓reduceIte, List.cons_append, List.drop_left' rfl, List.take_left' rfl, h2]
     simp only [hk.1, Bool.not_true, Bool.false_eq_true, ↓reduceIte]
 
-/-- What re-serialising a received frame needs from the application-layer codec (C05: a decoded
-service encodes again, to the same length, reporting that length, TPCI bits clear). -/
+/-- What re-serialising a received frame needs from the application-layer codec (C05: whenever a
+decoded service encodes again, the encoding has the received length, reports that length, and has
+its TPCI bits clear). -/
 structure DecLaws {α} (C : Codec α) : Prop where
-  dec_enc : ∀ apdu a, C.decode apdu = .ok a →
-    ∃ bs, C.encode a = some bs ∧ bs.length = apdu.length ∧ C.len a + 1 = bs.length ∧ bs.headD 0 < 4
+  dec_enc : ∀ apdu a bs, C.decode apdu = .ok a → C.encode a = some bs →
+    bs.length = apdu.length ∧ C.len a + 1 = bs.length ∧ bs.headD 0 < 4
 
 /-- (d) Re-serialising a received frame changes nothing but the derived frame type bit, the reserved
 bit 6 of Ctrl1, and whatever the application-layer codec changes when it re-encodes the decoded
 service (C05: reserved application bits only): same length; Ctrl1 equal modulo bits 7 and 6; Ctrl2,
 source, destination and NPDU length octets equal; a control TPDU equal; a data TPDU keeps its six
 transport bits and carries the re-encoded APDU. For every WF byte string the parser accepts with an
-NPDU length field ≤ 254 (255 is the reserved escape code and is refused by the serialiser). -/
+NPDU length field ≤ 254 (255 is the reserved escape code and is refused by the serialiser) and whose
+decoded service can be encoded again (C05's antecedent: e.g. A_MemoryExtended_Read with count 251
+decodes but `to_knx` refuses it). -/
 theorem ldata_reserialise {α} (C : Codec α) (hD : DecLaws C) (raw : Bytes) (hwf : Bytes.WF raw)
-    (d : LData α) (h : LData.fromKnx C raw = .ok d) (hn : raw.getD 6 0 ≤ 254) :
+    (d : LData α) (h : LData.fromKnx C raw = .ok d) (hn : raw.getD 6 0 ≤ 254)
+    (henc : ∀ a, d.payload = some a → ∃ bs, C.encode a = some bs) :
     ∃ raw', LData.toKnx C d = .ok raw' ∧ raw'.length = raw.length ∧
       raw'.getD 0 0 % 64 = raw.getD 0 0 % 64 ∧
       (raw'.drop 1).take 6 = (raw.drop 1).take 6 ∧
@@ -226,7 +230,8 @@ theorem ldata_reserialise {α} (C : Codec α) (hD : DecLaws C) (raw : Bytes) (hw
             | ok a =>
               rw [hdec] at h
               cases h
-              obtain ⟨bs, hbs, hbl, hbn, hbh⟩ := hD.dec_enc _ a hdec
+              obtain ⟨bs, hbs⟩ := henc a rfl
+              obtain ⟨hbl, hbn, hbh⟩ := hD.dec_enc _ a bs hdec hbs
               simp only [List.length_cons] at hbl
               obtain ⟨b0, rest, rfl⟩ : ∃ b0 rest, bs = b0 :: rest := by
                 cases bs with
